@@ -108,6 +108,41 @@ for _ in range(25):
         m._send_ffd(pid, data, addr); return m.calls
     add("MachineController_send_ffd %s %s %s %s %d" % (L(buf), L(pid), L([int(b) for b in bytearray(data)]), L(addr), len(data) + 1), exc(h))
 
+# ---- third round -------------------------------------------------------------------------------------
+from rig.machine_control.scp_connection import SCPConnection
+class RecKw(MachineController):
+    def __init__(self, buf):
+        self.calls = []
+        self._scp_data_length = buf
+    def _send_scp(self, *args, **kw):
+        self.calls.append(tuple(int(a) for a in args) + (int(kw["arg1"]), int(kw["arg2"]), int(kw["arg3"]),
+                          [int(b) for b in bytearray(kw["data"])], int(kw["expected_args"])))
+for _ in range(25):
+    buf = rng.choice([4, 5, 7, 8, 9, 16, 256])
+    data = bytes(rng.getrandbits(8) for _ in range(rng.choice([0, 4, 8, 12, 16, 20, 7, 3, 40])))
+    addr, x, y, link = rng.choice([0, 4, 8, 1024, 6, 1]), rng.randint(0, 7), rng.randint(0, 7), rng.randint(0, 5)
+    m = RecKw(buf)
+    def h():
+        MachineController.write_across_link.__wrapped__(m, addr, data, x, y, link) if hasattr(MachineController.write_across_link, "__wrapped__") else m.write_across_link(addr, data, x, y, link)
+        return m.calls
+    add("MachineController_write_across_link %s %s %s %s %s %s %d" % (L(buf), L(addr), L([int(b) for b in bytearray(data)]), L(x), L(y), L(link), len(data) + 1), exc(h))
+for _ in range(30):
+    buf = rng.choice([1, 2, 3, 4, 5, 8, 16, 256])
+    n = rng.choice([0, 1, 2, 3, 4, 5, 8, 9, 17, 33])
+    addr, x, y, p = rng.randint(0, 70), rng.randint(0, 7), rng.randint(0, 7), rng.randint(0, 17)
+    conn = SCPConnection.__new__(SCPConnection)
+    got = []
+    conn.send_scp_burst = lambda bs, ws, calls: got.extend(calls)
+    data = bytes(rng.getrandbits(8) for _ in range(n))
+    def hw():
+        del got[:]; conn.write(buf, 1, x, y, p, addr, data)
+        return [(c.x, c.y, c.p, int(c.cmd), c.arg1, c.arg2, int(c.arg3), [int(b) for b in bytearray(c.data)]) for c in got]
+    add("SCPConnection_write_packets %s %s %s %s %s %s %d" % (L(addr), L([int(b) for b in bytearray(data)]), L(buf), L(x), L(y), L(p), n + 1), exc(hw))
+    def hr():
+        del got[:]; conn.read(buf, 1, x, y, p, addr, n)
+        return [(c.x, c.y, c.p, int(c.cmd), c.arg1, c.arg2, int(c.arg3)) for c in got]
+    add("SCPConnection_read_packets %s %s %s %s %s %s %d" % (L(n), L(buf), L(x), L(y), L(p), L(addr), n + 1), exc(hr))
+
 class Parent(object):
     _freed = False
 def mk(s, e, off):
